@@ -820,6 +820,38 @@ func probeUnstarted(R *res.Result, ctx context.Context) {
 				fmt.Sprintf("handler %s on a created-but-not-started server (cluster id still 0) answered a header-less request: %s", name, ob), []string{name})
 		}
 	}
+	// second stage - the member is STARTING: Run() has finished startEtcd (its services are reachable, the etcd client exists) and
+	// has not yet run startServer, which reads / initialises the cluster id: Server.ClusterID() is still 0. Nothing may be
+	// answered then - in particular nothing that carries a cluster id in its header (GetMembers is how clients learn the id)
+	err = sv.VerifC20RunWithPause(func() {
+		for _, name := range handlerNames(sv) {
+			ob := func() (ob string) {
+				defer func() {
+					if r := recover(); r != nil {
+						ob = "panic past the closed-server check"
+					}
+				}()
+				return callUnstarted(sv, ctx, name)
+			}()
+			R.Count("starting:" + ob)
+			if ob != "refused" {
+				R.Violate("C20:request-served-before-cluster-id-is-initialised:member-starting",
+					fmt.Sprintf("handler %s on a member between startEtcd and startServer (Server.ClusterID() = %d) answered a header-less request: %s", name, sv.ClusterID(), ob), []string{name})
+			}
+		}
+		if r, err := sv.GetMembers(ctx, &pdpb.GetMembersRequest{}); err == nil {
+			R.Violate("C20:cluster-id-handed-out-before-it-is-initialised",
+				fmt.Sprintf("GetMembers on a starting member answered with header cluster id %d; after start-up the same member reports another id", r.GetHeader().GetClusterId()), []string{"GetMembers"})
+		}
+	})
+	if err != nil {
+		R.Notes = append(R.Notes, "starting-member probe incomplete: "+err.Error())
+		return
+	}
+	if r, err := sv.GetMembers(ctx, &pdpb.GetMembersRequest{}); err != nil || r.GetHeader().GetClusterId() != sv.ClusterID() || sv.ClusterID() == 0 {
+		R.Violate("C20:cluster:members-disagree-on-cluster-id", fmt.Sprintf("started member: GetMembers header %d (%v), Server.ClusterID() %d", r.GetHeader().GetClusterId(), err, sv.ClusterID()), nil)
+	}
+	sv.Close()
 }
 
 func callUnstarted(sv *server.Server, ctx context.Context, name string) string {
